@@ -15,8 +15,8 @@ Theorem C04_oracle_search_is_sound_and_exhaustive :
   wfd_premises E s t = true ->
   let kept := kept_of E s t in let f := fnat fl in
   match min_wfd_model E s t fl kmax with
-  | Some k => (k <= kmax)%nat /\ (exists l, iwd E s t kept f l /\ length l = k) /\ (forall l, iwd E s t kept f l -> (k <= length l)%nat)
-  | None => forall l, iwd E s t kept f l -> (kmax < length l)%nat
+  | Some k => (k <= kmax)%nat /\ (exists l, iwd0 E s t kept f l /\ length l = k) /\ (forall l, iwd0 E s t kept f l -> (k <= length l)%nat)
+  | None => forall l, iwd0 E s t kept f l -> (kmax < length l)%nat
   end.
 Proof. exact min_wfd_model_correct. Qed.
 Print Assumptions C04_oracle_search_is_sound_and_exhaustive.
@@ -45,3 +45,22 @@ Example C04_oracle_nonvacuous :
   wfd_premises [(0, 0); (1, 0); (0, 2)]%N 1%N 2%N = true.
 Proof. exact loop_oracle. Qed.
 Print Assumptions C04_oracle_nonvacuous.
+
+(* with a user ignore list (elements_to_ignore): kept = the base edges that are not ignored; a walk may pass an ignored edge up to the
+   capacity the model gives it (its own flow value inside a strongly connected component, 1 outside; source and sink edges once).  The
+   oracle is exact for the integer walk decompositions WITHIN THESE CAPS on the ignored edges -- the reading of the LP theorems
+   (C04_lp_feasible_iff_admissible_decomposition) -- : [iwd] with the capacity function [capn] *)
+Theorem C04_oracle_with_ignore_list_is_sound_and_exhaustive_within_caps :
+  forall (E : list PathEnc.edge) (s t : node) (ign : list PathEnc.edge) (capl fl : list (PathEnc.edge * nat)) (kmax : nat),
+  let kept := kept_ign E s t ign in let f := fnat fl in let capn := capn_ign s t capl in
+  match min_wfd_model_ign E s t ign capl fl kmax with
+  | Some k => (k <= kmax)%nat /\ (exists l, iwd E s t kept f capn l /\ length l = k) /\ (forall l, iwd E s t kept f capn l -> (k <= length l)%nat)
+  | None => forall l, iwd E s t kept f capn l -> (kmax < length l)%nat
+  end.
+Proof. exact min_wfd_model_ign_correct. Qed.
+Print Assumptions C04_oracle_with_ignore_list_is_sound_and_exhaustive_within_caps.
+
+Example C04_oracle_with_ignore_list_nonvacuous :
+  min_wfd_model_ign [(0, 0); (1, 0); (0, 3); (3, 2)]%N 1%N 2%N [(0, 0)%N] [((0, 0)%N, 2%nat)] [((0, 3)%N, 2%nat)] 3 = Some 1%nat.
+Proof. exact loop_oracle_ign. Qed.
+Print Assumptions C04_oracle_with_ignore_list_nonvacuous.
